@@ -586,8 +586,8 @@ def nt_c05(lhs, impl):
     return (pres, _hexbytes(f[2]).decode("latin1"), ref[1][:24], impl[:2])
 
 PROPS["C05"] = {
-    "modules": ["WhatIs.Props.C05"],
-    "theorems": ["WhatIs.C05.trial_selects", "WhatIs.C05.label_matches", "WhatIs.C05.pem_eq_der", "WhatIs.C05.pem_eq_der_unparsed", "WhatIs.C05.pem_text_eq_der", "WhatIs.C05.b64_eq_der",
+    "modules": ["WhatIs.Props.C05", "WhatIs.Props.DerKeys"],
+    "theorems": ["WhatIs.DerKeys.rsa_public_key_pem_eq_der", "WhatIs.C05.trial_selects", "WhatIs.C05.label_matches", "WhatIs.C05.pem_eq_der", "WhatIs.C05.pem_eq_der_unparsed", "WhatIs.C05.pem_text_eq_der", "WhatIs.C05.b64_eq_der",
                  "WhatIs.C05.polyglot_lengths", "WhatIs.C05.polyglot_witness"],
     "facts": {"pem.unparsedFallsBack": True, "pem.mixedEndAfterBegin": True},
     "nontrivial": nt_c05,
